@@ -3,6 +3,7 @@ package main
 // Instruction semantics.
 
 import (
+	"os"
 	"fmt"
 	"go/ast"
 	"strings"
@@ -326,6 +327,35 @@ func (f *Frame) execUnOp(in *ssa.UnOp, st *State) {
 	case token.ARROW:
 		c.note("abstracted", f.fn.String()+": channel receive (value nondeterministic)")
 		f.set(in, f.fresh(in, st))
+		// a receive from a named local channel variable is recorded as the
+		// event "recv:<name>" (read by __called): ordering contracts can
+		// require that a function waited for a goroutine it started
+		if !f.spec && !st.dead() {
+			name := ""
+			switch x := in.X.(type) {
+			case *ssa.UnOp:
+				if a, ok := x.X.(*ssa.Alloc); ok && x.Op == token.MUL {
+					name = a.Comment
+				}
+			case *ssa.MakeChan:
+				if refs := x.Referrers(); refs != nil {
+					for _, r := range *refs {
+						if dr, ok := r.(*ssa.DebugRef); ok {
+							if id, ok := dr.Expr.(*ast.Ident); ok {
+								name = id.Name
+							}
+						}
+					}
+				}
+			}
+			if name != "" {
+				if st.Ghost == nil {
+					st.Ghost = map[string]Term{}
+				}
+				st.Ghost["called:recv:"+name] = TTrue
+				st.Ghost["failed:recv:"+name] = TFalse
+			}
+		}
 	default:
 		c.unsupported(f, "unop "+in.Op.String())
 	}
@@ -964,8 +994,31 @@ func (f *Frame) runAtClauses(in ssa.Instruction, st *State) {
 				break
 			}
 			ts := f.get(v)
-			if f.localAddr[name] {
+			addr := f.localAddr[name]
+			// a variable that lives in memory (captured by a closure, or its
+			// address taken) is read from its cell, whatever the most recent
+			// debug reference to the name was (it may be an assigned constant)
+			var cellAlloc *ssa.Alloc
+			ncell := 0
+			for _, b := range f.fn.Blocks {
+				for _, bi := range b.Instrs {
+					if a, ok := bi.(*ssa.Alloc); ok && a.Comment == name {
+						cellAlloc = a
+						ncell++
+					}
+				}
+			}
+			if ncell == 1 {
+				if _, done := f.vals[cellAlloc]; done {
+					v, addr = cellAlloc, true
+					ts = f.get(v)
+				}
+			}
+			if addr {
 				ts = c.load(st, c.shapeOf(ts[0], v.Type()))
+			}
+			if os.Getenv("GOVC_DEBUG_AT") != "" {
+				fmt.Fprintf(os.Stderr, "at %q: %s = %v (%T %s) addr=%v -> %v at %v\n", ac.Anchor, name, v, v, v.Name(), f.localAddr[name], ts, f.posOf(in.Pos()))
 			}
 			want := ac.Fn.Signature.Params().At(len(f.argVals) + i).Type()
 			if len(ts) != len(layout(want)) {
